@@ -226,6 +226,17 @@ class VfsWorld:
             self.over[path] = ('absent',)
             self.mutation_point(I, 'removed_file ' + path)     # a death before the removal took effect = before the decision
             return ok(UNIT)
+        if last2 == 'fs::rename':
+            src, dst = I.deref(args[0]), I.deref(args[1])
+            I.effect('fs', op='rename', path=dst, src=src)
+            if I.branch(simp(self.kind(src) == ABSENT)):
+                return err(Opaque('IoError', msg='rename failed', kind=REnum('ErrorKind', 'NotFound')))
+            if I.branch(simp(self.kind(parent(dst)) != DIR)):
+                return err(Opaque('IoError', msg='rename failed', kind=REnum('ErrorKind', 'NotFound')))
+            self.mutation_point(I, 'rename ' + dst)
+            self.over[dst] = self.over.get(src, ('sym', self.kind(src)))
+            self.over[src] = ('absent',)
+            return ok(UNIT)
         if last2 == 'fs::remove_dir_all':
             path = I.deref(args[0])
             I.effect('fs', op='remove_dir_all', path=path)
